@@ -3,8 +3,19 @@
 
 package cache
 
+import "sync/atomic"
+
 // deleteEntry removes the key only if it still holds the given entry,
 // a value stored concurrently under the same key is kept.
 func (c *syncMap) deleteEntry(key interface{}, e *TraitEntry) {
 	c.data.CompareAndDelete(key, e)
+}
+
+// expireEntry marks the entry as expired at ts by replacing it with an expired copy, the replacement does not
+// happen if the key holds another entry already.
+//
+// The entry is not updated in place: cleanup job decides on expiration it has loaded from the entry and
+// removes that very entry afterwards, in-place update in between would be lost together with the entry.
+func (c *syncMap) expireEntry(key interface{}, e *TraitEntry, ts int64) {
+	c.data.CompareAndSwap(key, e, &TraitEntry{K: e.K, V: e.V, E: ts, C: atomic.LoadInt64(&e.C)})
 }
